@@ -3,6 +3,7 @@ package pipe
 import (
 	"encoding/json"
 	"fmt"
+	"math/rand"
 	"os"
 	"strings"
 	"time"
@@ -43,9 +44,14 @@ type PropDef struct {
 	Anchors     []string
 	HangIsViol  bool
 	DeathIsViol bool
-	Gen         func(seed int64, tier string, idx int) *Scenario
-	Hooks       func(sc *Scenario) *Hooks
-	Judge       func(out *Outcome, ix *Index) Verdict
+	// NoPoints: do not inject sleeps at the repository's scheduling points.
+	NoPoints bool
+	// PointBias: points this property cares most about; a focused case picks
+	// from them half of the time.
+	PointBias []string
+	Gen       func(seed int64, tier string, idx int) *Scenario
+	Hooks     func(sc *Scenario) *Hooks
+	Judge     func(out *Outcome, ix *Index) Verdict
 }
 
 func (p *PropDef) ID() string             { return p.PID }
@@ -107,6 +113,9 @@ func CompletionOrderSig(evs []rig.Ev) string {
 func (p *PropDef) RunCase(seed int64, tier string, idx int) vp.CaseResult {
 	sc := p.Gen(seed, tier, idx)
 	sc.Name = fmt.Sprintf("%s/%s/seed=%d/case=%d|cause=%s", p.PID, tier, seed, idx, sc.Name)
+	if sc.Points == nil && !p.NoPoints {
+		ChoosePoints(sc, seed, idx, p.PointBias)
+	}
 	var hooks *Hooks
 	if p.Hooks != nil {
 		hooks = p.Hooks(sc)
@@ -134,6 +143,10 @@ func (p *PropDef) RunCase(seed int64, tier string, idx int) vp.CaseResult {
 		res.Sets[k] = append(res.Sets[k], s...)
 	}
 	res.Stats["events_observed"] += int64(len(out.Evs))
+	for k, n := range out.PointHits {
+		res.Stats["point_hits."+k] += n
+	}
+	res.Stats["point_sleeps_injected"] += out.PointSleeps
 	res.Stats["scenarios_run"]++
 	if out.Settled {
 		res.Stats["scenarios_settled"]++
@@ -152,6 +165,44 @@ func (p *PropDef) RunCase(seed int64, tier string, idx int) vp.CaseResult {
 		res.Sample = map[string]any{"scenario": sc, "events_total": len(out.Evs), "final_status": out.FinalStatus, "history_excerpt": ex}
 	}
 	return res
+}
+
+// ChoosePoints decides, from a PRNG stream of its own (so the scenario itself is
+// the same with and without it), where sleeps are injected at the repository's
+// scheduling points: nowhere (1 in 4), a little everywhere (1 in 4), or a lot at
+// one to three points relevant for the engine (2 in 4).
+func ChoosePoints(sc *Scenario, seed int64, idx int, bias []string) {
+	pr := rand.New(rand.NewSource(seed*7_000_003 + int64(idx)*104729 + 5))
+	sc.PointSeed = pr.Int63()
+	switch pr.Intn(4) {
+	case 0:
+		return
+	case 1:
+		sc.Points = map[string]int{"*": []int{50, 150, 400}[pr.Intn(3)]}
+		return
+	}
+	relevant := func(all []string) []string {
+		var names []string
+		for _, n := range all {
+			if sc.Engine == "v1" && strings.HasPrefix(n, "funnel.") {
+				continue
+			}
+			if sc.Engine == "v2" && strings.HasPrefix(n, "stream.") {
+				continue
+			}
+			names = append(names, n)
+		}
+		return names
+	}
+	names, pref := relevant(rig.PointNames), relevant(bias)
+	sc.Points = map[string]int{}
+	for k := 1 + pr.Intn(3); k > 0; k-- {
+		from := names
+		if len(pref) > 0 && pr.Intn(2) == 0 {
+			from = pref
+		}
+		sc.Points[from[pr.Intn(len(from))]] = []int{500, 2000, 5000}[pr.Intn(3)]
+	}
 }
 
 // DumpEvents writes a scenario and its history as JSON lines (development aid).
